@@ -1,5 +1,122 @@
-From Coq Require Import ZArith List.
-From Cspuz Require Import Lib.PyErr Generator.XorShift.
-Theorem random_num_is_next : forall s, random_num s = let '(x, s') := next s in Done x s'.
-Proof. reflexivity. Qed.
-Print Assumptions random_num_is_next.
+From Coq Require Import ZArith List Bool.
+From Cspuz Require Import Lib.PyErr Generator.XorShift Generator.XorShiftProofs Generator.Builder
+  Generator.BuilderProofs Generator.Anneal Generator.AnnealProofs Generator.C19Final.
+Import ListNotations.
+Open Scope Z_scope.
+
+(* --- the deterministic PRNG --- *)
+
+Theorem xorshift_range : forall seed k,
+  wf (after k (seed_state seed)) /\ 0 <= word_at k (seed_state seed) < M32.
+Proof. exact xorshift_range_all. Qed.
+Print Assumptions xorshift_range.
+
+Theorem randint_range : forall a b s v s', randint a b s = Done v s' -> a <= v <= b.
+Proof. exact randint_range. Qed.
+Print Assumptions randint_range.
+
+Theorem randint_outcomes : forall a b s,
+  match randint a b s with
+  | Done v _ => a <= v <= b
+  | Raise e => e = ValueError /\ (b < a \/ M32 < b - a + 1)
+  | Diverge => True
+  end.
+Proof. exact randint_total_range. Qed.
+Print Assumptions randint_outcomes.
+
+Theorem randint_first_accepted : forall a b s v s',
+  randint a b s = Done v s' ->
+  exists k, s' = after (S k) s /\ word_at k s < limit_of (b - a + 1) /\
+            (forall j, (j < k)%nat -> limit_of (b - a + 1) <= word_at j s) /\
+            v = a + word_at k s mod (b - a + 1).
+Proof. exact randint_first_accepted. Qed.
+Print Assumptions randint_first_accepted.
+
+Theorem randint_uniform : forall a b v,
+  let w := b - a + 1 in
+  0 < w <= M32 -> a <= v <= b ->
+  (forall k, 0 <= k < M32 / w ->
+      0 <= (v - a) + k * w < limit_of w /\ a + ((v - a) + k * w) mod w = v) /\
+  (forall k k', (v - a) + k * w = (v - a) + k' * w -> k = k') /\
+  (forall x, 0 <= x < limit_of w -> a + x mod w = v ->
+      exists k, 0 <= k < M32 / w /\ x = (v - a) + k * w).
+Proof. exact randint_uniform. Qed.
+Print Assumptions randint_uniform.
+
+Theorem rejection_accepts_more_than_half : forall w, 0 < w <= M32 -> M32 < 2 * limit_of w.
+Proof. exact limit_more_than_half. Qed.
+Print Assumptions rejection_accepts_more_than_half.
+
+Theorem choice_uniform : forall (A : Type) (l : list A) s a s',
+  choice l s = Done a s' ->
+  exists idx, randint 0 (Z.of_nat (length l) - 1) s = Done idx s' /\
+              0 <= idx < Z.of_nat (length l) /\ nth_error l (Z.to_nat idx) = Some a.
+Proof. exact @choice_inv. Qed.
+Print Assumptions choice_uniform.
+
+Theorem random_range : forall s x s', wf s -> random_num s = Done x s' -> 0 <= x < M32 /\ wf s'.
+Proof. exact random_range. Qed.
+Print Assumptions random_range.
+
+Theorem shuffle_same_elements_partial : forall (A : Type) (l l' : list A) s s',
+  shuffle l s = Done l' s' -> (forall x, In x l' -> In x l) /\ length l' = length l.
+Proof. exact @shuffle_incl. Qed.
+Print Assumptions shuffle_same_elements_partial.
+
+(* --- builders and the neighbour generator --- *)
+
+Theorem neighbours_local : forall pt p s qs s' q,
+  shape pt p -> neighbours pt p s = Done qs s' -> In q qs -> nb pt p q.
+Proof. exact neighbours_nb. Qed.
+Print Assumptions neighbours_local.
+
+Theorem array_neighbour_values : forall c g s us s' l,
+  b_candidates (BArray c) (VGrid g) s = Done us s' -> In (UCells l) us ->
+  grid_local c g (apply_cells g l) /\ (length l <= 4)%nat /\
+  forall y x, (forall v, ~ In (y, x, v) l) -> cell (apply_cells g l) y x = cell g y x.
+Proof. exact array_neighbour_local. Qed.
+Print Assumptions array_neighbour_values.
+
+Theorem symmetry_kept : forall c g s us s' l,
+  a_symmetry c = true -> full c g -> sym_inv c g ->
+  b_candidates (BArray c) (VGrid g) s = Done us s' -> In (UCells l) us ->
+  sym_inv c (apply_cells g l) /\ full c (apply_cells g l).
+Proof. exact symmetry_kept. Qed.
+Print Assumptions symmetry_kept.
+
+Theorem adjacency_kept : forall c g s us s' l,
+  (forall dy dx, In (dy, dx) (a_disallow c) -> In (- dy, - dx) (a_disallow c)) ->
+  ~ In (0, 0) (a_disallow c) ->
+  full c g -> (a_symmetry c = true -> sym_inv c g) -> adj_inv c g ->
+  set_candidates c g s = Done us s' -> In (UCells l) us ->
+  adj_inv c (apply_cells g l).
+Proof. exact adjacency_kept. Qed.
+Print Assumptions adjacency_kept.
+
+(* --- generate_problem --- *)
+
+Theorem generate_sound : forall (P A W : Type) solver uniqueness score pretest clue_penalty accept neighbours
+    initial max_steps solve_initial w0 s0 r e,
+  generate P A W solver uniqueness score pretest clue_penalty accept neighbours
+           initial max_steps solve_initial w0 s0 = Finished r e ->
+  (forall p, r = Some p ->
+      offered P neighbours initial p /\
+      accepted P A W solver uniqueness pretest p (e_world e) /\
+      exists tr, e_trace e = tr ++ [EvSolve p true]) /\
+  (forall q, solved_in P (e_trace e) q -> q = initial \/ offered P neighbours initial q).
+Proof. exact generate_sound. Qed.
+Print Assumptions generate_sound.
+
+Theorem generate_neighbours_local : forall (A W : Type) solver uniqueness score pretest clue_penalty accept pt
+    max_steps solve_initial w0 s0 r e,
+  generate prob A W solver uniqueness score pretest clue_penalty accept (neighbours pt) (initial_of pt)
+           max_steps solve_initial w0 s0 = Finished r e ->
+  (forall p, r = Some p ->
+      accepted prob A W solver uniqueness pretest p (e_world e) /\
+      (exists tr, e_trace e = tr ++ [EvSolve p true]) /\
+      exists cur, reachable prob (neighbours pt) (initial_of pt) cur /\ shape pt cur /\ nb pt cur p) /\
+  (forall q, solved_in prob (e_trace e) q ->
+      q = initial_of pt \/
+      exists cur, reachable prob (neighbours pt) (initial_of pt) cur /\ shape pt cur /\ nb pt cur q).
+Proof. exact generate_local. Qed.
+Print Assumptions generate_neighbours_local.
